@@ -92,6 +92,9 @@ func main() {
 		os.RemoveAll(scratch)
 		os.Exit(2)
 	}
+	for _, wmsg := range cs.Warnings {
+		fmt.Println("WARNING:", wmsg)
+	}
 	ld, err := loadRepo(*repo, scratch, "verif", nil)
 	if err != nil {
 		fmt.Println("UNDECIDED: load error:", err)
